@@ -414,5 +414,5 @@ def run(tier, seed, only=None, nproc=None):
         assumptions=["find_best_split is replaced by a nondeterministic stub returning ANY contract-satisfying split (the contract is C08's subject)",
                      "validation stubbed to the identity; random feature subsets: every subset of the requested size",
                      "data enter only through order/ties of the feature values (listed datasets, n <= 4, d <= 2)"],
-        bounds={"tier": tier, "configurations": len(js)},
+        bounds={"tier": tier, "configurations": len(js), "datasets": "n<=4, d<=3: distinct values, ties, a constant column last / first / in the middle"},
         stubs=["find_best_split -> nondeterministic contract stub", "check_array/validate_data -> identity", "check_random_state.choice -> any subset"])
